@@ -1,0 +1,29 @@
+//! Verification hooks (feature `verif-hooks`, off by default).
+//!
+//! `sched_point(site)` marks a place between two accesses to shared state where
+//! no lock guard is held. With no handler installed it does nothing. The
+//! conformance drivers under /verif install a handler that parks the calling
+//! thread until a schedule controller grants it the next step, so that a
+//! TLC-generated interleaving can be replayed on the real code.
+
+use std::sync::{Arc, RwLock};
+
+/// Handler type: receives the site label.
+pub type SchedFn = dyn Fn(&'static str) + Send + Sync;
+
+static SCHED: RwLock<Option<Arc<SchedFn>>> = RwLock::new(None);
+
+/// Install (or with `None` remove) the process-global handler.
+pub fn install_sched(f: Option<Arc<SchedFn>>) {
+    if let Ok(mut g) = SCHED.write() {
+        *g = f;
+    }
+}
+
+/// Scheduling point; a no-op unless a handler is installed.
+pub fn sched_point(site: &'static str) {
+    let f = SCHED.read().ok().and_then(|g| g.clone());
+    if let Some(f) = f {
+        f(site);
+    }
+}
